@@ -177,6 +177,9 @@ def check(case, ctx):
             raise Violation("timestamps/count", "%d datetime fields, %d records" % (len(dts), len(outs)))
         orig = {n: observe(getattr(rec, n)) for _, n in fields_of(spec)}
         for fname, out in zip(dts, outs):
+            if "ts_description" not in out.__slots__ or "ts" not in out.__slots__:
+                raise Violation("timestamps/not-expanded", "record for datetime field %r has no ts / ts_description: fields %r"
+                                % (fname, [n for _, n in out._desc.get_field_tuples()]))
             if out.ts_description != fname:
                 raise Violation("timestamps/description", "expected ts_description %r, got %r" % (fname, out.ts_description))
             if observe(out.ts) != orig[fname]:
@@ -238,7 +241,12 @@ def check(case, ctx):
     elif op == "grouped-replace":
         if len(recs) < 2:
             return
-        g = impl(GroupedRecord, "g/outer", list(recs))
+        if case["nested_group"] and len(recs) >= 3:
+            # a group built from a group: its members are flattened, the copy must address them all the same
+            ctx.cls("grouped-replace:nested")
+            g = impl(lambda: GroupedRecord("g/outer", [recs[0], GroupedRecord("g/inner", recs[1:3])] + recs[3:]))
+        else:
+            g = impl(GroupedRecord, "g/outer", list(recs))
         if not g.ok:
             raise Violation("grouped/raised", "%r" % (g,), detail=g.type)
         g = g.value
